@@ -16,7 +16,6 @@ package static
 import (
 	"fmt"
 	"regexp"
-	"strings"
 
 	"github.com/attestantio/dirk/services/checker"
 	"github.com/attestantio/dirk/services/metrics"
@@ -120,23 +119,14 @@ func parseAndCheckParameters(params ...Parameter) (*parameters, error) {
 	return &parameters, nil
 }
 
-// regexify turns a name in to a regex.  It attaches anchors if required, and also makes the regex case-insensitive.
+// regexify turns a name in to a regex.  The name is matched against the whole of the
+// subject (the expression is grouped before being anchored, so that alternations such as
+// "Wallet1|Wallet2" cannot match a prefix or suffix), and the regex is case-insensitive.
 func regexify(name string) (*regexp.Regexp, error) {
 	// Empty equates to all.
 	if name == "" {
-		name = "(?i).*"
-	}
-	// Anchor if required.
-	if !strings.HasPrefix(name, "^") {
-		name = fmt.Sprintf("^%s", name)
-	}
-	if !strings.HasSuffix(name, "$") {
-		name = fmt.Sprintf("%s$", name)
-	}
-	// Case insensitivity if required.
-	if !strings.HasPrefix(name, "(?i)") {
-		name = fmt.Sprintf("(?i)%s", name)
+		name = ".*"
 	}
 
-	return regexp.Compile(name)
+	return regexp.Compile(fmt.Sprintf("(?i)^(?:%s)$", name))
 }
